@@ -1439,7 +1439,7 @@ func pdVariantLabel(c *sim.Ctx, d poolDriver, withGrace, withEcho bool) string {
 			l = l[:i]
 		}
 	}
-	if withEcho && strings.HasPrefix(l, "dist-") && c.Case.Knob("echo", 0) != 0 {
+	if withEcho && (strings.HasPrefix(l, "dist-") || l == "nexus-hash") && c.Case.Knob("echo", 0) != 0 {
 		l += "+echo"
 	}
 	return l
